@@ -30,7 +30,8 @@ var (
 )
 
 func c17Payloads() []any {
-	return []any{nil, 7, "s", c17Ptr, c17Map, c17Slice, stT{A: 1, B: []string{"b"}}}
+	return []any{nil, 7, "s", c17Ptr, c17Map, c17Slice, stT{A: 1, B: []string{"b"}},
+		(*payloadT)(nil), map[string]any(nil), []int(nil), 0, "", false} // typed nils and zero values keep their dynamic type
 }
 
 func styleScenario(prepR, execR, postR, builder, inFlow bool) Scenario {
